@@ -157,12 +157,44 @@ def strip_comments(src):
     return "".join(out)
 
 
-def forbidden_scan():
-    """Return list of (file, line, text) for forbidden constructs in coq/."""
-    bad = []
-    for p in coq_sources():
+REQ_RE = re.compile(r"\bNaga\.([A-Za-z0-9_]+(?:\.[A-Za-z0-9_]+)+)")
+
+
+def dep_closure(relpaths):
+    """Transitive closure of `Naga.X.Y` references (Require/From … Import) starting from the given files."""
+    seen = []
+    todo = list(relpaths)
+    while todo:
+        rp = todo.pop()
+        if rp in seen:
+            continue
+        p = os.path.join(COQ, rp)
+        if not os.path.exists(p):
+            continue
+        seen.append(rp)
         with open(p, errors="replace") as f:
             code = strip_comments(f.read())
+        for m in REQ_RE.finditer(code):
+            todo.append(m.group(1).replace(".", "/") + ".v")
+        for m in re.finditer(r"\bFrom\s+Naga((?:\.[A-Za-z0-9_]+)*)\s+Require\s+(?:Import\s+|Export\s+)?([^.]*(?:\.[A-Za-z0-9_]+[^.]*)*)\.(?:\s|$)", code):
+            prefix = m.group(1).strip(".").replace(".", "/")
+            for mod in m.group(2).split():
+                todo.append(os.path.join(prefix, mod.replace(".", "/")) + ".v")
+    return sorted(seen)
+
+
+def blank_strings(code):
+    return re.sub(r'"(?:[^"]|"")*"', '""', code)
+
+
+def forbidden_scan(relpaths=None):
+    """Return list of (file, line, text) for forbidden constructs in the given files
+    (default: the whole development), comments and string literals excluded."""
+    bad = []
+    paths = [os.path.join(COQ, r) for r in relpaths] if relpaths is not None else coq_sources()
+    for p in paths:
+        with open(p, errors="replace") as f:
+            code = blank_strings(strip_comments(f.read()))
         in_section = 0
         for n, line in enumerate(code.splitlines(), 1):
             if re.match(r"\s*Section\b", line):
@@ -429,12 +461,13 @@ def proof_step(ctx, props_file, model_files, gen_writer=None, extra_obligation_f
     """1. forbid Admitted/Axiom/...; 2. regenerate Gen files (gen_writer returns
     list of relpaths it wrote); 3. make; 4. count theorems of props_file and
     Gen obligation files; 5. Print Assumptions.  Returns (ok, failed_files, log)."""
-    bad = forbidden_scan()
+    gen_files = gen_writer() if gen_writer else []
+    files = [props_file] + list(extra_obligation_files)
+    closure = dep_closure(files + list(model_files))
+    bad = forbidden_scan(closure)
     if bad:
         ctx.violation("forbidden construct in Coq development: %s" % bad[:5], found_input=False,
                       broken="development contains Admitted/Axiom/...: %s" % bad[:5])
-    gen_files = gen_writer() if gen_writer else []
-    files = [props_file] + list(extra_obligation_files)
     # build exactly what this property depends on (other properties' files cannot disturb it)
     ok, log = coq_make(targets=[f[:-2] + ".vo" for f in files])
     failed = coq_failed_files(log) if not ok else []
@@ -451,6 +484,7 @@ def proof_step(ctx, props_file, model_files, gen_writer=None, extra_obligation_f
     ctx.cov["theorems"] = {rp: theorems_in(rp) for rp in files}
     ctx.cov["gen_files_regenerated"] = gen_files
     ctx.cov["model_files"] = list(model_files)
+    ctx.cov["files_scanned_for_forbidden_constructs"] = closure
     if ok:
         pa = print_assumptions([props_file])
         ctx.cov["print_assumptions"] = pa
